@@ -21,3 +21,12 @@ def drivers():
         n = (300 if tier == "quick" else 3000) * scale
         return ["-n", str(n), "-seed", str(seed)]
     return [{"driver": "relaydrive", "args": args, "replay_args": lambda tier: []}]
+
+LEVEL_TEXT = ("Machine-checked proof (Coq 8.16.1) that the to_nsq reader loop, for every input byte string and every delimiter, "
+              "publishes exactly the non-empty delimiter-separated records in order to every destination (final unterminated record included), "
+              "over an executable Gallina model tied to the source by differential correspondence: the real to_nsq binary is run on generated "
+              "stdin streams against recording destinations and the model is evaluated on the same inputs inside coqc.")
+LEVEL_NOTE = ("Trusted: Coq kernel + vm_compute; the hand-written model of readAndPublish (bufio.ReadBytes, go-nsq Publish modelled); the stub destination; "
+              "the correspondence is sampled (generated inputs), the theorem is not. nsq_to_nsq/nsq_to_http acknowledgement half: see DESIGN.md C20.")
+TECHNIQUE = "Coq proof by induction over the input + differential correspondence (real binary vs vm_compute of the model)"
+DESIGN_REF = "DESIGN.md §5 C20"
